@@ -391,3 +391,6 @@ def run(ctx):
     r_sibling(ctx)
     r_del(ctx)
     C06.r_mark(ctx)
+    # the gate compares with the writer's *declared* dimension: a writer derived by a metric change keeps it (C18's R-HANDLE)
+    from props import C18
+    C18.rules(ctx)
